@@ -90,6 +90,10 @@ impl Config {
 pub enum HOp {
     Set(u8, u8),
     Put(u8),
+    /// set / put whose source is another hard link to the file currently cached under the key (an
+    /// application republishing a blob it keeps hard-linked; a retry after a crash between link and unlink)
+    SetLinked(u8),
+    PutLinked(u8),
     Get(u8),
     Touch(u8),
     Ensure(u8),
@@ -110,7 +114,11 @@ impl Sym {
     fn from_json(v: &Value) -> Sym {
         let s = v[1].as_str().unwrap();
         let nums: Vec<u8> = s.chars().filter(|c| c.is_ascii_digit() || *c == ',').collect::<String>().split(',').filter(|x| !x.is_empty()).map(|x| x.trim().parse().unwrap()).collect();
-        let op = if s.starts_with("Set") {
+        let op = if s.starts_with("SetLinked") {
+            HOp::SetLinked(nums[0])
+        } else if s.starts_with("PutLinked") {
+            HOp::PutLinked(nums[0])
+        } else if s.starts_with("Set") {
             HOp::Set(nums[0], nums[1])
         } else if s.starts_with("Put") {
             HOp::Put(nums[0])
@@ -124,7 +132,7 @@ impl Sym {
         Sym { handle: v[0].as_u64().unwrap() as u8, op, fire: v[2].as_bool().unwrap(), shard_draw: v[3].as_u64().unwrap() as u8 }
     }
     fn is_write(&self) -> bool {
-        matches!(self.op, HOp::Set(..) | HOp::Put(_) | HOp::Ensure(_))
+        matches!(self.op, HOp::Set(..) | HOp::Put(_) | HOp::Ensure(_) | HOp::SetLinked(_) | HOp::PutLinked(_))
     }
 }
 
@@ -166,6 +174,10 @@ pub fn alphabet(cfg: &Config) -> Vec<Sym> {
                     v.push(Sym { handle: h, op: HOp::Set(k, val), fire, shard_draw: d });
                 }
                 v.push(Sym { handle: h, op: HOp::Put(k), fire, shard_draw: d });
+                if cfg.front != FrontKind::Stack && k == 0 && !fire {
+                    v.push(Sym { handle: h, op: HOp::SetLinked(k), fire, shard_draw: d });
+                    v.push(Sym { handle: h, op: HOp::PutLinked(k), fire, shard_draw: d });
+                }
                 if cfg.front == FrontKind::Stack {
                     v.push(Sym { handle: h, op: HOp::Ensure(k), fire, shard_draw: d });
                 }
@@ -253,16 +265,26 @@ fn exec(live: &mut Live, cfg: &Config, sym: &Sym) -> (Got, Vec<Ev>, Option<PathB
     let (kidx, val) = match sym.op {
         HOp::Set(k, v) => (k, Some(set_val(v))),
         HOp::Put(k) => (k, Some(put_val())),
+        HOp::SetLinked(k) | HOp::PutLinked(k) => (k, Some(put_val())),
         HOp::Ensure(k) => (k, Some(ensure_val())),
         HOp::Get(k) | HOp::Touch(k) => (k, None),
     };
     let key = keys[kidx as usize].clone();
     let mut src = None;
-    let needs_src = matches!(sym.op, HOp::Set(..) | HOp::Put(_)) && !matches!(live.handles[sym.handle as usize], Handle::Stack(_));
+    let needs_src = matches!(sym.op, HOp::Set(..) | HOp::Put(_) | HOp::SetLinked(_) | HOp::PutLinked(_)) && !matches!(live.handles[sym.handle as usize], Handle::Stack(_));
     if needs_src {
         live.nsrc += 1;
         let p = live.app.join(format!("src{}", live.nsrc));
-        shim::passthrough(|| std::fs::write(&p, val.unwrap().bytes()).unwrap());
+        let linked = matches!(sym.op, HOp::SetLinked(_) | HOp::PutLinked(_));
+        let existing: Option<PathBuf> = if linked {
+            candidate_dirs(cfg, Some(&key)).iter().map(|d| live.w.join(d).join(&key.name)).find(|c| world::lstat(c).is_some())
+        } else {
+            None
+        };
+        shim::passthrough(|| match &existing {
+            Some(e) => std::fs::hard_link(e, &p).unwrap(),
+            None => std::fs::write(&p, val.unwrap().bytes()).unwrap(),
+        });
         src = Some(p);
     }
     let handle = &live.handles[sym.handle as usize];
@@ -280,19 +302,19 @@ fn exec(live: &mut Live, cfg: &Config, sym: &Sym) -> (Got, Vec<Ev>, Option<PathB
         run::shard_draws(&[], Some(draw));
         let k = key.key();
         match (handle, op) {
-            (Handle::Plain(c), HOp::Set(..)) => io_got(c.set(k.name, srcp.as_ref().unwrap()), |_| Got::Unit),
-            (Handle::Plain(c), HOp::Put(_)) => io_got(c.put(k.name, srcp.as_ref().unwrap()), |_| Got::Unit),
+            (Handle::Plain(c), HOp::Set(..)) | (Handle::Plain(c), HOp::SetLinked(_)) => io_got(c.set(k.name, srcp.as_ref().unwrap()), |_| Got::Unit),
+            (Handle::Plain(c), HOp::Put(_)) | (Handle::Plain(c), HOp::PutLinked(_)) => io_got(c.put(k.name, srcp.as_ref().unwrap()), |_| Got::Unit),
             (Handle::Plain(c), HOp::Get(_)) => io_got(c.get(k.name), |o| o.map(|f| Got::Hit(read_all(f))).unwrap_or(Got::Miss)),
             (Handle::Plain(c), HOp::Touch(_)) => io_got(c.touch(k.name), Got::Bool),
-            (Handle::Sharded(c), HOp::Set(..)) => io_got(c.set(k, srcp.as_ref().unwrap()), |_| Got::Unit),
-            (Handle::Sharded(c), HOp::Put(_)) => io_got(c.put(k, srcp.as_ref().unwrap()), |_| Got::Unit),
+            (Handle::Sharded(c), HOp::Set(..)) | (Handle::Sharded(c), HOp::SetLinked(_)) => io_got(c.set(k, srcp.as_ref().unwrap()), |_| Got::Unit),
+            (Handle::Sharded(c), HOp::Put(_)) | (Handle::Sharded(c), HOp::PutLinked(_)) => io_got(c.put(k, srcp.as_ref().unwrap()), |_| Got::Unit),
             (Handle::Sharded(c), HOp::Get(_)) => io_got(c.get(k), |o| o.map(|f| Got::Hit(read_all(f))).unwrap_or(Got::Miss)),
             (Handle::Sharded(c), HOp::Touch(_)) => io_got(c.touch(k), Got::Bool),
             (Handle::Stack(c), _) => {
                 let dirs = ops::Dirs { write: PathBuf::new(), reads: vec![], app_tmp: app.clone() };
                 let o = match op {
                     HOp::Set(_, v) => ops::Op::Set(key.clone(), set_val(v)),
-                    HOp::Put(_) => ops::Op::Put(key.clone(), put_val()),
+                    HOp::Put(_) | HOp::SetLinked(_) | HOp::PutLinked(_) => ops::Op::Put(key.clone(), put_val()),
                     HOp::Ensure(_) => ops::Op::Ensure(key.clone(), Pop::Value(ensure_val())),
                     HOp::Get(_) => ops::Op::Get(key.clone()),
                     HOp::Touch(_) => ops::Op::Touch(key.clone()),
@@ -434,7 +456,13 @@ fn step(live: &mut Live, cfg: &Config, sym: &Sym, rep: &mut Report) -> Vec<(Stri
             }
         }
         restamped.sort();
-        let restamped: Vec<String> = restamped.into_iter().map(|x| x.1).collect();
+        // a source that is a hard link to the cached file shares its inode: stamping the source (which every
+        // set/put does before publishing) stamps the entry too; that is the caller's doing, not a re-queue
+        let own_linked: Option<String> = match sym.op {
+            HOp::SetLinked(k) | HOp::PutLinked(k) => Some(keys[k as usize].name.clone()),
+            _ => None,
+        };
+        let restamped: Vec<String> = restamped.into_iter().map(|x| x.1).filter(|n| Some(n) != own_linked.as_ref()).collect();
         if !listed.contains(dir) {
             if !ev.is_empty() || !restamped.is_empty() {
                 bad.push(("eviction-without-maintenance".into(), format!("entries {:?} removed / {:?} re-queued in {:?} although that directory was not listed", ev, restamped, dir)));
@@ -465,7 +493,7 @@ fn step(live: &mut Live, cfg: &Config, sym: &Sym, rep: &mut Report) -> Vec<(Stri
     // --- result against the map model (maintenance precedes the operation's own effect)
     let (kidx, _) = match sym.op {
         HOp::Set(k, v) => (k, Some(v)),
-        HOp::Put(k) | HOp::Get(k) | HOp::Touch(k) | HOp::Ensure(k) => (k, None),
+        HOp::Put(k) | HOp::Get(k) | HOp::Touch(k) | HOp::Ensure(k) | HOp::SetLinked(k) | HOp::PutLinked(k) => (k, None),
     };
     let key = &keys[kidx as usize];
     let ro_has = cfg.front == FrontKind::Stack && key.name == "ka";
@@ -476,6 +504,11 @@ fn step(live: &mut Live, cfg: &Config, sym: &Sym, rep: &mut Report) -> Vec<(Stri
             Got::Unit
         }
         HOp::Put(_) => {
+            live.model.entry(key.name.clone()).or_insert(put_val());
+            Got::Unit
+        }
+        HOp::SetLinked(_) | HOp::PutLinked(_) => {
+            // the source holds the cached value itself (or, when the key is absent, the put value)
             live.model.entry(key.name.clone()).or_insert(put_val());
             Got::Unit
         }
